@@ -33,6 +33,9 @@ func c01Cases(rng *zz.RNG, thorough bool) []c01Case {
 		{"frames", genOpts{Epoch: 2, NBlocks: 25, MaxTx: 6, SkipPct: 40, FramePct: 50, LoadedPct: 30}},
 		{"big-sections", genOpts{Epoch: 3, NBlocks: 12, MaxTx: 4, SkipPct: 20, BigPct: 40, FramePct: 20}},
 		{"many-blocks", genOpts{Epoch: 7, NBlocks: 600, MaxTx: 2, SkipPct: 50}},
+		{"varint-boundaries", genOpts{Epoch: 5, NBlocks: 14, MaxTx: 2, SkipPct: 10,
+			ExactSecLens: []int{126, 127, 128, 129, 130, 16382, 16383, 16384, 16385, 16511, 16512, 255, 256}}},
+		{"many-tx", genOpts{Epoch: 6, NBlocks: 1300, MaxTx: 14, SkipPct: 5}},
 		{"mid-epoch", genOpts{Epoch: 123, NBlocks: 40, MaxTx: 5, SkipPct: 60, FirstSlotAt: 100000, FramePct: 10}},
 	}
 	n := 2
@@ -40,6 +43,7 @@ func c01Cases(rng *zz.RNG, thorough bool) []c01Case {
 		n = 10
 		cs = append(cs,
 			c01Case{"over-10000-objects", genOpts{Epoch: 9, NBlocks: 5200, MaxTx: 1, SkipPct: 10}},
+			c01Case{"section-2MiB", genOpts{Epoch: 11, NBlocks: 4, MaxTx: 2, ExactSecLens: []int{2097151, 2097152, 2097153}}},
 			c01Case{"over-10000-tx", genOpts{Epoch: 10, NBlocks: 2600, MaxTx: 8, SkipPct: 10, FramePct: 2}},
 		)
 	}
